@@ -36,6 +36,7 @@ Verdict(e, menu) ==
                       ELSE IF \E r \in 1..NR : r # e.d /\ all[r] # regs[r] THEN "other_register_changed"
                       ELSE IF all[e.d] # J(e.after) THEN "bad_event"
                       ELSE IF StepOK(e.op, ta, ra, tb, rb, td, J(e.before), J(e.after), e.out) THEN "ok"
+                      ELSE IF SignalOnUnrounded(OpResultValue(e.op, ta, ra, tb, rb), td, J(e.before), J(e.after), e.out) THEN "ok"
                       ELSE IF Signalled(e.op, ta, ra, tb, rb, td) THEN (IF e.out = "ok" THEN "missed_overflow" ELSE "wrong_reaction")
                       ELSE IF e.out # "ok" THEN "false_overflow" ELSE "silently_wrong"),
                nt |-> TRUE, cls |-> cls]
@@ -72,6 +73,7 @@ Verdict(e, menu) ==
                       ELSE IF \E r \in 1..NR : r # e.d /\ all[r] # regs[r] THEN "other_register_changed"
                       ELSE IF all[e.d] # J(e.after) THEN "bad_event"
                       ELSE IF StoreOK(<<kv, 0>>, td, J(e.before), J(e.after), e.out) THEN "ok"
+                      ELSE IF SignalOnUnrounded(<<kv, 0>>, td, J(e.before), J(e.after), e.out) THEN "ok"
                       ELSE IF c.k # "val" THEN (IF e.out = "ok" THEN "missed_overflow" ELSE "wrong_reaction")
                       ELSE IF e.out # "ok" THEN "false_overflow" ELSE "silently_wrong"),
                nt |-> TRUE, cls |-> cls]
@@ -89,6 +91,7 @@ Verdict(e, menu) ==
                       ELSE IF \E r \in 1..NR : r # e.d /\ all[r] # regs[r] THEN "other_register_changed"
                       ELSE IF all[e.d] # J(e.after) THEN "bad_event"
                       ELSE IF StoreOK(<<raw1, em>>, td, b0, J(e.after), e.out) THEN "ok"
+                      ELSE IF SignalOnUnrounded(<<raw1, em>>, td, b0, J(e.after), e.out) THEN "ok"
                       ELSE IF c.k # "val" THEN (IF e.out = "ok" THEN "missed_overflow" ELSE "wrong_reaction")
                       ELSE IF e.out # "ok" THEN "false_overflow" ELSE "silently_wrong"),
                nt |-> TRUE, cls |-> cls]
@@ -106,6 +109,7 @@ Verdict(e, menu) ==
                       ELSE IF \E r \in 1..NR : r # e.d /\ all[r] # regs[r] THEN "other_register_changed"
                       ELSE IF all[e.d] # J(e.after) THEN "bad_event"
                       ELSE IF StoreOK(xv, td, J(e.before), J(e.after), e.out) THEN "ok"
+                      ELSE IF SignalOnUnrounded(xv, td, J(e.before), J(e.after), e.out) THEN "ok"
                       ELSE IF c.k # "val" THEN (IF e.out = "ok" THEN "missed_overflow" ELSE "wrong_reaction")
                       ELSE IF e.out # "ok" THEN "false_overflow" ELSE "silently_wrong"),
                nt |-> TRUE, cls |-> cls]
